@@ -138,6 +138,8 @@ func runC03(c *core.Ctx, ck *Check) {
 				return gen.DateNum(r, false)
 			case 3, 4:
 				return gen.LogNum(r, 31)
+			case 5:
+				return gen.EncodingNums[r.IntN(len(gen.EncodingNums))]
 			case 2:
 				if n := gen.EcoNum(e.Name, r); n != "" && len(n) <= 9 && strings.TrimLeft(n, "0") == n {
 					return n
@@ -158,6 +160,44 @@ func runC03(c *core.Ctx, ck *Check) {
 			}
 		}
 		ms := gen.MarkerTable[e.Name]
+		if j.k == 0 {
+			// deterministic sweep: every position of every arity carries 2^e-1 / 2^e (e = 1..31) and every encoding
+			// boundary once, against its predecessor, its successor and a small number, the following component non-zero
+			for arity := ar[0]; arity <= ar[1]; arity++ {
+				var vals []string
+				for ex := 1; ex <= 31; ex++ {
+					vals = append(vals, strconv.FormatInt(int64(1)<<ex-1, 10))
+					if ex < 31 {
+						vals = append(vals, strconv.FormatInt(int64(1)<<ex, 10))
+					}
+				}
+				vals = append(vals, gen.EncodingNums...)
+				for pos := 0; pos < arity; pos++ {
+					for _, v := range vals {
+						n, _ := strconv.ParseInt(v, 10, 64)
+						a := make([]string, arity)
+						for x := range a {
+							a[x] = []string{"1", "2", "5"}[x%3]
+						}
+						a[pos] = v
+						for _, o := range []int64{n - 1, n + 1, 5, n - 2048, n + 2048, 65533} {
+							if o < 0 || o > 1<<31-1 {
+								continue
+							}
+							b := append([]string{}, a...)
+							b[pos] = strconv.FormatInt(o, 10)
+							as, bs := strings.Join(a, "."), strings.Join(b, ".")
+							if e.Name == "github" && (ghDate.MatchString(as) || ghDate.MatchString(bs)) {
+								continue
+							}
+							w.Count("evaluations", 1)
+							w.Count("pow2_and_encoding_sweep_pairs", 1)
+							rep(evalC03(c, e, "tuple-order", []string{as, bs}))
+						}
+					}
+				}
+			}
+		}
 		for arity := ar[0]; arity <= ar[1]; arity++ {
 			for k := 0; k < 120; k++ {
 				a := make([]string, arity)
